@@ -32,6 +32,17 @@ pub enum Side {
     /// n requests in flight on a server channel with the same deadline, handlers finish only
     /// after it has passed, a fresh request arrives: nothing is transmitted for the expired ones
     ServerManyExpire,
+    /// the server run the way the examples run it: `spawn_incoming` over tarpc's own in-memory
+    /// transport, every channel and every request a real tokio task (with tokio's cooperative
+    /// budget); n requests whose handlers never finish share a deadline, the (virtual) clock passes
+    /// it: every handler is dropped, and a fresh request on the same connection is answered
+    SpawnedServerExpire,
+    /// the client run the way the examples run it: the dispatch and every call a real tokio task
+    /// (with tokio's cooperative budget: a task gets `Pending` from tokio's channels after 128
+    /// operations in one poll); n calls are queued before the dispatch first runs, and the
+    /// transport's first flush fails: nothing is written afterwards, every call fails, the dispatch
+    /// ends with the error
+    SpawnedClientFlushFault,
 }
 
 #[derive(Clone, Copy, Debug, serde::Serialize, serde::Deserialize)]
@@ -353,6 +364,200 @@ async fn run_many_expire(cfg: &BurstCfg, out: &mut RunOut, text: &mut String) {
     }
 }
 
+/// A transport that can live in a spawned task: accepts everything, fails its first flush, never
+/// yields a response (it keeps the reader's waker, as the contract asks).
+#[derive(Default)]
+struct SendMockInner {
+    failed: bool,
+    writes: usize,
+    writes_after_failure: usize,
+    flushes: usize,
+    read_waker: Option<Waker>,
+}
+#[derive(Clone, Default)]
+struct SendMock(std::sync::Arc<std::sync::Mutex<SendMockInner>>);
+impl Stream for SendMock {
+    type Item = Result<Response<u32>, std::io::Error>;
+    fn poll_next(self: Pin<&mut Self>, cx: &mut Context<'_>) -> Poll<Option<Self::Item>> {
+        self.0.lock().unwrap().read_waker = Some(cx.waker().clone());
+        Poll::Pending
+    }
+}
+impl futures::Sink<ClientMessage<u32>> for SendMock {
+    type Error = std::io::Error;
+    fn poll_ready(self: Pin<&mut Self>, _: &mut Context<'_>) -> Poll<Result<(), Self::Error>> {
+        Poll::Ready(Ok(()))
+    }
+    fn start_send(self: Pin<&mut Self>, _: ClientMessage<u32>) -> Result<(), Self::Error> {
+        let mut g = self.0.lock().unwrap();
+        g.writes += 1;
+        if g.failed {
+            g.writes_after_failure += 1;
+        }
+        Ok(())
+    }
+    fn poll_flush(self: Pin<&mut Self>, _: &mut Context<'_>) -> Poll<Result<(), Self::Error>> {
+        let mut g = self.0.lock().unwrap();
+        g.flushes += 1;
+        g.failed = true;
+        Poll::Ready(Err(std::io::Error::new(std::io::ErrorKind::BrokenPipe, "flush failed")))
+    }
+    fn poll_close(self: Pin<&mut Self>, _: &mut Context<'_>) -> Poll<Result<(), Self::Error>> {
+        Poll::Ready(Ok(()))
+    }
+}
+
+async fn run_spawned_flush_fault(cfg: &BurstCfg, out: &mut RunOut, text: &mut String) {
+    let t = SendMock::default();
+    let mut ccfg = client::Config::default();
+    ccfg.pending_request_buffer = 4096;
+    ccfg.max_in_flight_requests = 4096;
+    let nc = client::new::<u32, u32, SendMock>(ccfg, t.clone());
+    let ch = nc.client;
+    let t0 = std::time::Instant::now();
+    let mut calls = vec![];
+    for i in 0..cfg.n {
+        let c = ch.clone();
+        calls.push(tokio::spawn(async move {
+            let mut ctx = context::current();
+            ctx.deadline = t0 + std::time::Duration::from_secs(3600);
+            c.call(ctx, i as u32).await
+        }));
+    }
+    let settle = || async {
+        for _ in 0..(4 * cfg.n + 64) {
+            tokio::task::yield_now().await;
+        }
+    };
+    // every call has queued its request before the dispatch runs for the first time
+    settle().await;
+    let dispatch = tokio::spawn(nc.dispatch);
+    settle().await;
+    out.nontrivial = cfg.n > 1;
+    let g = t.0.lock().unwrap();
+    text.push_str(&format!("writes {} (after the failed flush: {}), flushes {}\n", g.writes, g.writes_after_failure, g.flushes));
+    if g.writes_after_failure > 0 {
+        out.violations.push(viol(
+            "C14-ii-send-after-error",
+            format!("{} calls queued before a spawned dispatch first ran, the transport's first flush failed: {} items were written to it afterwards", cfg.n, g.writes_after_failure),
+        ));
+    }
+    drop(g);
+    if !dispatch.is_finished() {
+        out.violations.push(viol("burst-dispatch-not-ended", format!("{} calls, first flush failed: the spawned dispatch is still running", cfg.n)));
+        dispatch.abort();
+    } else if let Ok(Ok(())) = dispatch.await {
+        out.violations.push(viol("burst-dispatch-ended-ok", format!("{} calls, first flush failed: the spawned dispatch ended with Ok", cfg.n)));
+    }
+    settle().await;
+    let mut pending = 0;
+    let mut succeeded = 0;
+    for c in calls {
+        if !c.is_finished() {
+            pending += 1;
+            c.abort();
+        } else if let Ok(Ok(_)) = c.await {
+            succeeded += 1;
+        }
+    }
+    text.push_str(&format!("calls still pending {pending}, succeeded {succeeded}\n"));
+    if pending > 0 {
+        out.violations.push(viol("burst-call-hangs", format!("{} calls, first flush failed, dispatch gone: {pending} calls are still pending", cfg.n)));
+    }
+    if succeeded > 0 {
+        out.violations.push(viol("burst-call-succeeded", format!("{succeeded} calls succeeded without a reply")));
+    }
+    drop(ch);
+}
+
+async fn run_spawned_expire(cfg: &BurstCfg, out: &mut RunOut, text: &mut String) {
+    use futures::{SinkExt, StreamExt};
+    use std::sync::atomic::{AtomicUsize, Ordering};
+    use std::sync::Arc;
+    use tarpc::server::incoming::{spawn_incoming, Incoming};
+    struct Guard(Arc<AtomicUsize>);
+    impl Drop for Guard {
+        fn drop(&mut self) {
+            self.0.fetch_add(1, Ordering::SeqCst);
+        }
+    }
+    let started = Arc::new(AtomicUsize::new(0));
+    let dropped = Arc::new(AtomicUsize::new(0));
+    let (mut peer, server_end) = tarpc::transport::channel::unbounded::<Response<u32>, ClientMessage<u32>>();
+    let (st2, dr2) = (started.clone(), dropped.clone());
+    let serve = tarpc::server::serve(move |_, x: u32| {
+        let (st, dr) = (st2.clone(), dr2.clone());
+        async move {
+            if x >= 1_000_000 {
+                return Ok(x);
+            }
+            st.fetch_add(1, Ordering::SeqCst);
+            let _g = Guard(dr);
+            futures::future::pending::<()>().await;
+            Ok(0u32)
+        }
+    });
+    let incoming = futures::stream::once(async move { BaseChannel::with_defaults(server_end) }).execute(serve);
+    let server = tokio::spawn(spawn_incoming(incoming));
+    let t0 = std::time::Instant::now();
+    let mk = |id: u64, secs: u64| {
+        let mut ctx = context::current();
+        ctx.deadline = t0 + std::time::Duration::from_secs(secs);
+        ClientMessage::Request(Request { context: ctx, id, message: id as u32 })
+    };
+    for i in 0..cfg.n {
+        if peer.send(mk(i as u64, 1 + (i as u64 % 2))).await.is_err() {
+            out.machinery_error = Some("spawned burst: the in-memory transport refused a request".into());
+            return;
+        }
+    }
+    // let every spawned task run until the runtime has nothing left to do at this instant
+    let settle = || async {
+        for _ in 0..(4 * cfg.n + 64) {
+            tokio::task::yield_now().await;
+        }
+    };
+    settle().await;
+    let st = started.load(Ordering::SeqCst);
+    text.push_str(&format!("handlers started before the deadline: {st} of {}\n", cfg.n));
+    if dropped.load(Ordering::SeqCst) != 0 {
+        out.violations.push(viol("burst-early-abort", format!("{} of {} handlers were dropped before any deadline had passed", dropped.load(Ordering::SeqCst), cfg.n)));
+    }
+    tokio::time::advance(std::time::Duration::from_millis(2500)).await;
+    settle().await;
+    tokio::time::advance(std::time::Duration::from_millis(10)).await;
+    settle().await;
+    let dr = dropped.load(Ordering::SeqCst);
+    text.push_str(&format!("handlers dropped 1.5 s after the last deadline: {dr} of {st} started\n"));
+    out.nontrivial = cfg.n > 1;
+    if st != cfg.n {
+        out.violations.push(viol("burst-not-served", format!("{} requests sent to a spawned server, only {st} handlers were started before their deadlines", cfg.n)));
+    }
+    if dr != st {
+        out.violations.push(viol("burst-not-expired", format!("{st} handlers of a spawned server were running when their deadlines passed; {} of them are still alive 1.5 s later", st - dr)));
+    }
+    // the connection still serves
+    if peer.send(mk(5_000_000, 3600)).await.is_ok() {
+        settle().await;
+        let mut answered = false;
+        let mut extra = vec![];
+        while let Some(Some(Ok(r))) = futures::FutureExt::now_or_never(peer.next()) {
+            if r.request_id == 5_000_000 {
+                answered = true;
+            } else if r.message.is_ok() {
+                extra.push(r.request_id);
+            }
+        }
+        if !answered {
+            out.violations.push(viol("burst-connection-stalled", format!("after {} requests expired on a spawned server a fresh request on the same connection is not answered", cfg.n)));
+        }
+        if !extra.is_empty() {
+            out.violations.push(viol("burst-response-after-deadline", format!("responses for expired requests {:?} were transmitted", &extra[..extra.len().min(5)])));
+        }
+    }
+    server.abort();
+}
+
 fn run_server(cfg: &BurstCfg, out: &mut RunOut, text: &mut String) {
     let log = Log::new();
     let core: Rc<RefCell<Core<ClientMessage<u32>>>> = Rc::new(RefCell::new(Core::new(1, Flavour::Always, 1, None, log.clone())));
@@ -456,6 +661,8 @@ pub fn run_cfg(cfg: &BurstCfg, render: bool) -> RunOut {
                 Side::Server => run_server(cfg, &mut out, &mut text),
                 Side::ClientManyCalls => run_many_calls(cfg, &mut out, &mut text).await,
                 Side::ServerManyExpire => run_many_expire(cfg, &mut out, &mut text).await,
+                Side::SpawnedServerExpire => run_spawned_expire(cfg, &mut out, &mut text).await,
+                Side::SpawnedClientFlushFault => run_spawned_flush_fault(cfg, &mut out, &mut text).await,
                 _ => run_client(cfg, &mut out, &mut text),
             }
         }))
